@@ -25,6 +25,7 @@
 #define VF_PROP "C09"
 #define VF_HAVE_INIT
 #include "vf_common.h"
+#include <math.h>
 #include "a/a.h"
 #include "a/linalg.h"
 #include <float.h>
@@ -388,6 +389,70 @@ static void run_product(int kn, unsigned row, unsigned inner, unsigned col, int 
     free(X); free(Y); free(Xs); free(Ys); free(xi); free(yi); free(ref);
 }
 
+/* Non-finite regime ("all matrix contents"): every entry is a positive integer 1..9 except ONE pair.
+ *   mode 0: X(i0,k0) = s*H and Y(k0,j0) = H with H = 1e200, so exactly one TERM of Z(i0,j0) overflows (two finite entries);
+ *   mode 1: X(i0,k0) = s*inf.
+ * Whatever the order of summation, the entries are forced: every other term is a positive integer <= 81, so
+ *   Z(i0,j0) = s*inf (mode 0), row i0 of Z = fl(s*H*y) for the other columns resp. s*inf for the whole row (mode 1), column j0 of Z
+ *   = fl(x*H) for the other rows (mode 0; the integer rest, < 2^15, is far below half an ulp of 1e200), the remaining entries are
+ *   exact integers.  No inf - inf and no inf * 0 occurs in the definition, so NaN is never a correct entry (seeded change C09-F:
+ *   compensated summation turns the overflowing term into NaN). */
+static void run_product_nonfinite(int kn, unsigned row, unsigned inner, unsigned col, int mode, vf_rng *r)
+{
+    int const tx = (kn == KN_MULTM || kn == KN_MULTT), ty = (kn == KN_MULMT || kn == KN_MULTT);
+    size_t const nx = (size_t)row * inner, ny = (size_t)inner * col, nz = (size_t)row * col;
+    double *X = in_new(nx), *Y = in_new(ny), *Xs, *Ys, *ref = (double *)malloc(nz * sizeof(double));
+    unsigned const i0 = (unsigned)vf_below(r, row), k0 = (unsigned)vf_below(r, inner), j0 = (unsigned)vf_below(r, col);
+    double const sgn = vf_chance(r, 1, 2) ? 1.0 : -1.0, H = 1e200;
+    outbuf Z = out_new(nz);
+    char call[200], key[96];
+    char const *cls = shape_class3(row, inner, col);
+#define XAT(i, k) X[tx ? (size_t)(k) * row + (i) : (size_t)(i) * inner + (k)]
+#define YAT(k, j) Y[ty ? (size_t)(j) * inner + (k) : (size_t)(k) * col + (j)]
+    if (!ref) { fprintf(stderr, "C09: out of memory\n"); exit(2); }
+    for (size_t i = 0; i < nx; ++i) { X[i] = (double)vf_range(r, 1, 9); }
+    for (size_t i = 0; i < ny; ++i) { Y[i] = (double)vf_range(r, 1, 9); }
+    XAT(i0, k0) = mode ? sgn * (double)INFINITY : sgn * H;
+    if (!mode) { YAT(k0, j0) = H; }
+    for (unsigned i = 0; i < row; ++i)
+    {
+        for (unsigned j = 0; j < col; ++j)
+        {
+            double v;
+            if (i == i0 && (mode || j == j0)) { v = sgn * (double)INFINITY; }
+            else if (i == i0) { v = sgn * H * YAT(k0, j); }
+            else if (!mode && j == j0) { v = XAT(i, k0) * H; }
+            else
+            {
+                v = 0;
+                for (unsigned k = 0; k < inner; ++k) { v += XAT(i, k) * YAT(k, j); }
+            }
+            ref[(size_t)i * col + j] = v;
+        }
+    }
+    Xs = in_dup(X, nx);
+    Ys = in_dup(Y, ny);
+    snprintf(call, sizeof(call), "a_real_%s(row=%u,inner=%u,col=%u), entries 1..9 except X(%u,%u)=%s%s", kn_name[kn], row, inner, col, i0, k0, sgn < 0 ? "-" : "+",
+             mode ? "inf" : "1e200 and Y(k0,j0)=1e200");
+    vf_log("%s (j0=%u)", call, j0);
+    switch (kn)
+    {
+    case KN_MULMM: a_real_mulmm(row, inner, col, X, Y, Z.p); break;
+    case KN_MULTM: a_real_mulTm(inner, row, col, X, Y, Z.p); break;
+    case KN_MULMT: a_real_mulmT(row, col, inner, X, Y, Z.p); break;
+    default: a_real_mulTT(row, inner, col, X, Y, Z.p); break;
+    }
+    snprintf(key, sizeof(key), "%s", mode ? "entry-ne-product-with-infinite-entry" : "entry-ne-product-with-overflowing-term");
+    judge(kn, cls, &Z, ref, row, col, call, key);
+    judge_input(kn, cls, "X", X, Xs, nx, call);
+    judge_input(kn, cls, "Y", Y, Ys, ny, call);
+    VF_COUNT("products-with-overflowing-term-or-infinite-entry");
+#undef XAT
+#undef YAT
+    out_free(&Z);
+    free(X); free(Y); free(Xs); free(Ys); free(ref);
+}
+
 /* ------------------------------------------------------------------ rectangular / square kernels */
 /* one m x n input A with content class ct; runs every kernel applicable to the shape */
 static void run_rect(unsigned m, unsigned n, int ct, vf_rng *r)
@@ -622,6 +687,13 @@ static unsigned rand_dim(vf_rng *r)
     if (vf_chance(r, 1, 5)) { return edge[vf_below(r, 6)]; }
     return (unsigned)vf_range(r, 1, DIM_MAX);
 }
+/* one dimension around a power of two far above the exhaustive sets (strip-mined / blocked loops, narrow index types: seeded
+   change C09-E misplaces every strip after the first 64 rows); the other dimensions stay small so the cost stays linear */
+static unsigned big_dim(vf_rng *r)
+{
+    static unsigned const big[] = {63, 64, 65, 66, 127, 128, 129, 255, 256, 257, 300, 511, 512, 513, 1023, 1024, 1025};
+    return big[vf_below(r, vf.tier ? 17 : 11)];
+}
 static void flush_counts(void)
 {
     for (int k = 0; k < KN_COUNT; ++k)
@@ -677,6 +749,21 @@ static void vf_case(uint64_t c, vf_rng *r)
             int const ct = (int)vf_below(r, 3);
             for (int kn = KN_MULMM; kn <= KN_MULTT; ++kn) { run_product(kn, row, inner, col, ct, r); }
         }
+        {
+            /* one large dimension (each position in turn), and the non-finite regime on a small and on that large shape */
+            unsigned d[3] = {(unsigned)vf_range(r, 1, 5), (unsigned)vf_range(r, 1, 5), (unsigned)vf_range(r, 1, 5)};
+            unsigned const which = (unsigned)(p.arg % 3);
+            int const ct = (int)vf_below(r, 3);
+            d[which] = big_dim(r);
+            vf_log("products, one large dimension: row=%u inner=%u col=%u", d[0], d[1], d[2]);
+            for (int kn = KN_MULMM; kn <= KN_MULTT; ++kn) { run_product(kn, d[0], d[1], d[2], ct, r); }
+            VF_COUNT("products-with-one-large-dimension");
+            for (int kn = KN_MULMM; kn <= KN_MULTT; ++kn)
+            {
+                run_product_nonfinite(kn, (unsigned)vf_range(r, 1, 6), (unsigned)vf_range(r, 1, 6), (unsigned)vf_range(r, 1, 6), (int)vf_below(r, 2), r);
+                run_product_nonfinite(kn, d[0], d[1], d[2], (int)vf_below(r, 2), r);
+            }
+        }
         VF_COUNT("random-product-batches");
         break;
     default:
@@ -689,6 +776,19 @@ static void vf_case(uint64_t c, vf_rng *r)
         {
             unsigned const n = rand_dim(r);
             run_rect(n, n, (int)vf_below(r, CT_COUNT), r);
+        }
+        {
+            /* tall and wide shapes with one large dimension, and (one batch in four) a square one just above 64 */
+            unsigned const b = big_dim(r), sm = (unsigned)vf_range(r, 1, 5);
+            vf_log("rectangular kernels, one large dimension: %ux%u and %ux%u", b, sm, sm, b);
+            run_rect(b, sm, (int)vf_below(r, CT_COUNT), r);
+            run_rect(sm, b, (int)vf_below(r, CT_COUNT), r);
+            if (p.arg % 4 == 0)
+            {
+                unsigned const q = (unsigned)vf_range(r, 63, 70);
+                run_rect(q, q, (int)vf_below(r, CT_COUNT), r);
+            }
+            VF_COUNT("rect-kernels-with-one-large-dimension");
         }
         VF_COUNT("random-rect-batches");
         break;
